@@ -154,6 +154,9 @@ def any_of(eng, n, pred, base="any"):
     k = z3.Int(fresh_name("k!" + base))
     eng.axioms.append(z3.Implies(a, z3.And(0 <= w, w < n, pred(w))))
     eng.axioms.append(z3.ForAll([k], z3.Implies(z3.And(0 <= k, k < n, pred(k)), a)))
+    if not hasattr(eng, "_any_witness"):
+        eng._any_witness = {}
+    eng._any_witness[a.get_id()] = w
     return a
 
 
